@@ -12,7 +12,7 @@ ASSUME ExtIsSumOfLsr(CaseExt)
 ASSUME ExtAdditive(ExtObjsN(1))
 \* the implementation-shaped evaluation agrees with the relation on every case (all temperatures)
 ASSUME \A o \in CaseObjs, t \in Temps : Evaluate(o, t).U = Required(o)
-Case(o, t) == [obj |-> o, T |-> t, U |-> Required(o)]
+Case(o, t) == [obj |-> o, T |-> t, U |-> Required(o), Unum |-> NumPart(o)]
 Cases == {Case(o, t) : o \in CaseObjs, t \in Temps}
 EmitCases == IF "OUT_FILE" \in DOMAIN IOEnv THEN JsonSerialize(IOEnv.OUT_FILE, SetToSeq(Cases)) ELSE TRUE
 ASSUME EmitCases
